@@ -357,7 +357,15 @@ def fold(node, env=None):
             return env[node.id]
         raise NotConstant(node.id)
     if isinstance(node, (ast.List, ast.Tuple, ast.Set)):
-        vals = [fold(e, env) for e in node.elts]
+        vals = []
+        for e in node.elts:
+            if isinstance(e, ast.Starred):
+                inner = fold(e.value, env)
+                if not isinstance(inner, (list, tuple)):
+                    raise NotConstant("starred non-sequence")
+                vals.extend(inner)
+            else:
+                vals.append(fold(e, env))
         return vals if isinstance(node, ast.List) else tuple(vals) if isinstance(node, ast.Tuple) else set(vals)
     if isinstance(node, ast.Dict):
         return {fold(k, env): fold(v, env) for k, v in zip(node.keys, node.values)}
